@@ -49,7 +49,9 @@ def _key_spelling(rng, P):
 
 def _bad_key(rng, P):
     x = P[0].to_bytes(32, "big")
+    y = P[1].to_bytes(32, "big")
     return rng.choice([b"\x04" + x + ((P[1] + 1) % C.p).to_bytes(32, "big"),      # y not the ordinate of x
+                       bytes([6 + (P[1] & 1)]) + x + y, bytes([7 - (P[1] & 1)]) + x + y,    # hybrid prefixes, right and wrong parity: no spelling of a key here
                        b"\x05" + x, b"\x04" + x + x, b"\x02" + (C.p + 1).to_bytes(32, "big"),
                        b"\x02" + _off_curve_x(rng)])
 
